@@ -4,7 +4,8 @@
 // token-renamed copies of the repository's current files against the scheduler shim (vsched.h),
 // so every atomic operation is a scheduling point and the interleaving is part of the generated
 // case.  Targets
-//   cb_sched    1..3 producers x 1..3 Adds, one consumer (Consume/Peek/Clear), capacity 1..3,
+//   cb_sched    1..3 producers x 1..4 Adds (lvalue or rvalue overload), one consumer (Consume with own or default
+//               callback / Peek / Clear / drain-until-done), capacity 1..3, optionally destroyed with elements inside,
 //               generated schedule incl. spurious weak-CAS failures
 //   spin_sched  2..3 threads x generated lock/try_lock/unlock programs
 // plus a bounded-exhaustive enumeration (preemption bound 2/3) of the small configurations
@@ -30,6 +31,13 @@ using opentelemetry::sdk::common::CircularBuffer;
 using opentelemetry::sdk::common::CircularBufferRange;
 
 int g_live = 0, g_constructed = 0, g_destroyed = 0;
+// while non-null, every destroyed element is recorded here (elements destroyed INSIDE the buffer by
+// Clear(), by Consume's default callback or by the buffer's destructor are identified this way)
+// (only destructions performed by the logical thread that set the sink count: a producer whose
+// rvalue Add fails destroys its own element concurrently)
+std::vector<std::pair<int, int>> *g_destroy_sink = nullptr;
+vsched::Scheduler *g_sched                       = nullptr;
+int g_sink_thread                                = -1;
 
 struct Elem
 {
@@ -43,6 +51,8 @@ struct Elem
   {
     --g_live;
     ++g_destroyed;
+    if (g_destroy_sink && g_sched && g_sched->self_id() == g_sink_thread)
+      g_destroy_sink->emplace_back(producer, seq);
   }
 };
 
@@ -51,12 +61,14 @@ struct AddRec
   int producer, seq;
   bool ok;
   bool caller_still_owns;
+  bool rvalue = false;  // Add(std::unique_ptr<T>&&): the buffer takes the element whatever the result
   uint64_t call, ret;
 };
 
 struct ConsumeRec
 {
   uint64_t call, ret;
+  bool unordered = false;  // the buffer's destructor frees its slots in array order, not queue order
   std::vector<std::pair<int, int>> got;
   size_t size_before;
 };
@@ -66,6 +78,8 @@ struct CbConfig
   int capacity;
   std::vector<int> adds;          // per producer
   std::vector<uint8_t> consumer;  // consumer op codes
+  uint8_t flags = 0;              // bit 0: no final drain (the buffer is destroyed with elements inside)
+                                  // bits 1..3: producer 0..2 uses the rvalue overload Add(std::move(e))
 };
 
 void describe(vh::Case &c, const CbConfig &cfg)
@@ -76,12 +90,14 @@ void describe(vh::Case &c, const CbConfig &cfg)
   s += "] consumer=[";
   for (size_t i = 0; i < cfg.consumer.size(); ++i)
     s += (i ? "," : "") + std::to_string(cfg.consumer[i]);
-  s += "]";
+  s += "] flags=" + std::to_string(cfg.flags);
   c.note(s);
 }
 
 // consumer op codes: 0 consume everything visible, 1 consume one (if any), 2 peek only,
-// 3 Clear(), 4 consume half (rounded up), 5 idle point
+// 3 Clear() emulated by an observable Consume, 4 consume half (rounded up), 5 idle point,
+// 6 the real Clear(), 7 Consume(n) with its default callback, 8 keep consuming until every producer
+// has finished
 void run_cb(vh::Case &c, const CbConfig &cfg)
 {
   g_live = g_constructed = g_destroyed = 0;
@@ -89,6 +105,10 @@ void run_cb(vh::Case &c, const CbConfig &cfg)
   std::vector<ConsumeRec> consumes;
   std::string failure;  // oracle failures seen on logical threads (reported after the run)
   size_t max_size_seen = 0;
+  size_t left_inside   = 0;
+  int producers_done   = 0;
+  uint64_t end_stamp   = 0;
+  std::vector<std::pair<int, int>> destroyed_at_end;
 
   vsh::ByteSource src(c.rd);
   vsched::Options opt;
@@ -97,6 +117,8 @@ void run_cb(vh::Case &c, const CbConfig &cfg)
 
   vsched::RunStats rs = vsched::run(&src, opt, vsh::fatal, [&](vsched::Scheduler &s) {
     CircularBuffer<Elem> buf(static_cast<size_t>(cfg.capacity));
+    g_sched       = &s;
+    g_sink_thread = s.self_id();
     std::vector<std::unique_ptr<vsched::thread>> producers;
     for (size_t p = 0; p < cfg.adds.size(); ++p)
     {
@@ -108,22 +130,24 @@ void run_cb(vh::Case &c, const CbConfig &cfg)
           AddRec r;
           r.producer = static_cast<int>(p);
           r.seq      = i;
-          r.call     = s.steps();
-          r.ok       = buf.Add(e);
-          r.ret      = s.steps();
+          r.call     = s.stamp();
+          r.ok       = ((cfg.flags >> (1 + p)) & 1) ? buf.Add(std::move(e)) : buf.Add(e);
+          r.ret      = s.stamp();
           r.caller_still_owns = (e != nullptr);
+          r.rvalue            = ((cfg.flags >> (1 + p)) & 1) != 0;
           adds.push_back(r);
           // size() is also called from producer threads by the batch processors; there it is
           // documented to be only approximate (stale tail), so only its internal assert is
           // exercised, the capacity bound is asserted on the consumer thread's readings
           (void)buf.size();
         }
+        ++producers_done;
       }));
     }
     auto consume_n = [&](size_t n) {
       ConsumeRec r;
       r.size_before = n;
-      r.call        = s.steps();
+      r.call        = s.stamp();
       buf.Consume(n, [&](CircularBufferRange<AtomicUniquePtr<Elem>> &range) noexcept {
         range.ForEach([&](AtomicUniquePtr<Elem> &ptr) noexcept {
           std::unique_ptr<Elem> e;
@@ -135,7 +159,27 @@ void run_cb(vh::Case &c, const CbConfig &cfg)
           return true;
         });
       });
-      r.ret = s.steps();
+      r.ret = s.stamp();
+      if (r.got.size() != n && failure.empty())
+        failure = "Consume(" + std::to_string(n) + ") handed out " + std::to_string(r.got.size()) +
+                  " elements although size() had reported at least " + std::to_string(n);
+      consumes.push_back(r);
+    };
+    // elements destroyed inside the buffer (real Clear(), default Consume callback)
+    auto destroy_n = [&](size_t n, bool clear) {
+      ConsumeRec r;
+      r.size_before  = n;
+      r.call         = s.stamp();
+      g_destroy_sink = &r.got;
+      if (clear)
+        buf.Clear();
+      else
+        buf.Consume(n);
+      g_destroy_sink = nullptr;
+      r.ret          = s.stamp();
+      if (r.got.size() < n && failure.empty())
+        failure = std::string(clear ? "Clear()" : "Consume(n) with the default callback") + " destroyed " +
+                  std::to_string(r.got.size()) + " elements although size() had reported at least " + std::to_string(n);
       consumes.push_back(r);
     };
     for (uint8_t op : cfg.consumer)
@@ -174,7 +218,7 @@ void run_cb(vh::Case &c, const CbConfig &cfg)
           size_t before = buf.size();
           ConsumeRec r;
           r.size_before = before;
-          r.call        = s.steps();
+          r.call        = s.stamp();
           // same as Clear() but observable: Clear() == Consume(size())
           buf.Consume(before, [&](CircularBufferRange<AtomicUniquePtr<Elem>> &range) noexcept {
             range.ForEach([&](AtomicUniquePtr<Elem> &ptr) noexcept {
@@ -186,12 +230,32 @@ void run_cb(vh::Case &c, const CbConfig &cfg)
               return true;
             });
           });
-          r.ret = s.steps();
+          r.ret = s.stamp();
           consumes.push_back(r);
           break;
         }
         case 4:
           consume_n((sz + 1) / 2);
+          break;
+        case 6:
+          destroy_n(sz, true);
+          break;
+        case 7:
+          destroy_n(sz, false);
+          break;
+        case 8:
+          for (int guard = 0; guard < 4000; ++guard)
+          {
+            bool done = producers_done == static_cast<int>(cfg.adds.size());
+            size_t n  = buf.size();
+            if (n > static_cast<size_t>(cfg.capacity) && failure.empty())
+              failure = "size() = " + std::to_string(n) + " exceeds capacity " + std::to_string(cfg.capacity);
+            if (n)
+              consume_n(n);
+            if (done)
+              break;
+            vsched::this_thread::yield();
+          }
           break;
         default:
           vsched::point();
@@ -200,11 +264,35 @@ void run_cb(vh::Case &c, const CbConfig &cfg)
     }
     for (auto &t : producers)
       t->join();
+    if (cfg.flags & 1)
+    {
+      // no final drain: whatever is still inside is destroyed with the buffer - exactly once
+      // (the buffer goes out of scope at the end of this lambda; its destructor's work is recorded)
+      left_inside    = buf.size();
+      end_stamp      = s.stamp();
+      g_destroy_sink = &destroyed_at_end;
+      return;
+    }
     // final drain
     consume_n(buf.size());
     if (!buf.empty() && failure.empty())
       failure = "buffer not empty after the final drain";
   });
+  g_destroy_sink = nullptr;
+  g_sched        = nullptr;
+  if (cfg.flags & 1)
+  {
+    ConsumeRec r;
+    r.size_before = left_inside;
+    r.call = r.ret = end_stamp;
+    r.unordered   = true;
+    r.got         = destroyed_at_end;
+    if (r.got.size() != left_inside && failure.empty())
+      failure = "the buffer was destroyed holding " + std::to_string(left_inside) + " elements but its destructor freed " +
+                std::to_string(r.got.size());
+    consumes.push_back(r);
+    c.tag(left_inside ? "destroyed-with-elements-inside" : "destroyed-empty(no final drain)");
+  }
 
   // ---- oracle over the history
   VH_CHECK(c, failure.empty(), failure);
@@ -220,15 +308,19 @@ void run_cb(vh::Case &c, const CbConfig &cfg)
       VH_CHECK(c, !a.caller_still_owns, "Add reported success but left the element with the caller (p"
                                             << a.producer << "#" << a.seq << ")");
     }
-    else
+    else if (!a.rvalue)
       VH_CHECK(c, a.caller_still_owns, "Add reported failure but took the element away (p"
                                            << a.producer << "#" << a.seq << ")");
+    else
+      c.tag("rvalue-add-failed(element-freed-by-add)");
   }
   std::map<int, int> last_seq;
   for (auto &cr : consumes)
     for (auto &e : cr.got)
     {
       consumed.insert(e);
+      if (cr.unordered)
+        continue;
       auto it = last_seq.find(e.first);
       VH_CHECK(c, it == last_seq.end() || it->second < e.second,
                "producer " << e.first << ": element #" << e.second << " consumed after #"
@@ -290,10 +382,11 @@ CbConfig decode_cb(vh::Reader &rd)
   cfg.capacity = 1 + static_cast<int>(rd.below(3));
   int np       = 1 + static_cast<int>(rd.below(3));
   for (int i = 0; i < np; ++i)
-    cfg.adds.push_back(1 + static_cast<int>(rd.below(3)));
+    cfg.adds.push_back(1 + static_cast<int>(rd.below(4)));
   int nc = static_cast<int>(rd.below(7));
   for (int i = 0; i < nc; ++i)
-    cfg.consumer.push_back(static_cast<uint8_t>(rd.below(6)));
+    cfg.consumer.push_back(static_cast<uint8_t>(rd.below(9)));
+  cfg.flags = static_cast<uint8_t>(rd.u8() & 0x0f);
   return cfg;
 }
 
@@ -439,8 +532,8 @@ SpinConfig decode_spin(vh::Reader &rd)
     int n = 1 + static_cast<int>(rd.below(5));
     for (int i = 0; i < n; ++i)
     {
-      static const uint8_t op_of[12] = {0, 0, 0, 0, 1, 1, 1, 2, 2, 2, 3, 4};
-      p.push_back(op_of[rd.below(12)]);
+      static const uint8_t op_of[14] = {0, 0, 0, 0, 1, 1, 1, 2, 2, 2, 3, 4, 4, 4};
+      p.push_back(op_of[rd.below(14)]);
     }
     cfg.prog.push_back(p);
   }
@@ -479,6 +572,7 @@ std::vector<uint8_t> encode_cb(const CbConfig &cfg)
   b.push_back(static_cast<uint8_t>(cfg.consumer.size()));
   for (uint8_t op : cfg.consumer)
     b.push_back(op);
+  b.push_back(cfg.flags);
   return b;
 }
 std::vector<uint8_t> encode_spin(const SpinConfig &cfg)
@@ -518,14 +612,16 @@ extern "C" int vh_exhaustive(const char *tier)
     uint64_t max;
   };
   std::vector<Job> jobs;
-  auto cbjob = [&](int cap, std::vector<int> adds, std::vector<uint8_t> cons, int pb, int sb, uint64_t max) {
-    CbConfig c{cap, adds, cons};
+  auto cbjob = [&](int cap, std::vector<int> adds, std::vector<uint8_t> cons, int pb, int sb, uint64_t max, uint8_t flags = 0) {
+    CbConfig c{cap, adds, cons, flags};
     std::string l = "cb cap=" + std::to_string(cap) + " adds=";
     for (int a : adds)
       l += std::to_string(a);
     l += " consumer=";
     for (uint8_t o : cons)
       l += std::to_string(o);
+    if (flags)
+      l += " flags=" + std::to_string(flags);
     jobs.push_back(Job{cb, encode_cb(c), l, pb, sb, max});
   };
   uint64_t cap_sched = thorough ? 150000 : 40000;
@@ -537,8 +633,15 @@ extern "C" int vh_exhaustive(const char *tier)
   cbjob(1, {1, 1}, {1, 0}, pb, 1, cap_sched);
   cbjob(2, {2, 1}, {0}, 2, 1, cap_sched);
   cbjob(1, {1, 1, 1}, {0}, 2, 0, cap_sched);
+  cbjob(1, {1, 1}, {}, pb, 1, cap_sched, 1 | 2);     // rvalue Add, destroyed with an element inside
+  cbjob(1, {2, 1}, {8}, 2, 1, cap_sched, 4);         // consumer keeps up with the producers
+  cbjob(2, {1, 1}, {6}, 2, 1, cap_sched);            // the real Clear() racing two producers
+  cbjob(1, {1, 1}, {7}, 2, 1, cap_sched, 1);         // default-callback Consume, no final drain
   if (thorough)
   {
+    cbjob(1, {1, 1, 1}, {0}, 2, 1, cap_sched);
+    cbjob(1, {2, 2}, {8}, 2, 1, cap_sched);
+    cbjob(2, {2, 1}, {6, 7}, 2, 1, cap_sched, 1);
     cbjob(2, {2, 2}, {1, 0}, 2, 1, cap_sched);
     cbjob(3, {2, 2}, {4}, 2, 1, cap_sched);
     cbjob(1, {2, 2}, {0, 0}, 2, 1, cap_sched);
